@@ -645,7 +645,7 @@ fn run_and_judge(prop: &str, c08: bool, wk: &Worker, cn: &'static Coin, world: &
     spec_u.verbosity = verbosity;
     // how the two directories are spelled on the command line, by case (absolute, relative, trailing slash, through links,
     // the current directory named "", "." or "./")
-    let path_form = if embed { h8(label.as_bytes())[2] % 9 } else { 0 };
+    let path_form = if embed { h8(label.as_bytes())[2] % 10 } else { 0 };
     spec_u.env.push(("VERIF_PATH_FORM".into(), path_form.to_string()));
     acc.count(&format!("path-form:{}", path_form), 1);
     // every fourth case starts from a dump folder holding the (longer) *.csv.tmp leftovers of an aborted earlier dump
